@@ -4427,14 +4427,19 @@ func (data *Data) ReplaceMergeShards(db, rp string, ptId uint32, shardIds []uint
 	}
 
 	var mergeShardOwnerGroups []int
+	var mergeShardIds []uint64
 	for _, mergeShardId := range shardIds {
 		if group, ok := shardIdToGroup[mergeShardId]; ok {
 			mergeShardOwnerGroups = append(mergeShardOwnerGroups, group)
+			mergeShardIds = append(mergeShardIds, mergeShardId)
 			if len(mergeShardOwnerGroups) > 1 && mergeShardOwnerGroups[len(mergeShardOwnerGroups)-1] <= mergeShardOwnerGroups[len(mergeShardOwnerGroups)-2] {
 				return fmt.Errorf("merge sg.time of these mergeShards are not Incremental")
 			}
-			rpInfo.ShardGroups[group].ShardMergedNumInc(mergeShardId)
 		}
+	}
+	// count the shards as merged only once the whole request is known to be valid
+	for i, group := range mergeShardOwnerGroups {
+		rpInfo.ShardGroups[group].ShardMergedNumInc(mergeShardIds[i])
 	}
 	if len(mergeShardOwnerGroups) == 1 {
 		// has replaced from other ts-store or mergeShardsId has a new inside shard
